@@ -102,6 +102,15 @@ def build(spec, env: Env | None = None):
         if spec.get("raise"):
             kw["raise_on_unknown_times"] = True
         return pendulum.datetime(*spec["f"], tz=_zone(spec.get("tz", "UTC")), fold=spec.get("fold", 1), **kw)
+    if t == "dt_filezone":
+        import io
+
+        from pendulum.tz.timezone import Timezone
+
+        from .world import tzif_bytes
+
+        tz = Timezone.from_file(io.BytesIO(tzif_bytes(spec["zone"])))
+        return pendulum.datetime(*spec["f"], tz=tz, fold=spec.get("fold", 1))
     if t == "naive":
         return pendulum.naive(*spec["f"], fold=spec.get("fold", 1))
     if t == "date":
@@ -187,6 +196,24 @@ def execute(op, env: Env):
         return pickle.loads(pickle.dumps(build(op[1], env), op[2] if len(op) > 2 else pickle.HIGHEST_PROTOCOL))
     if f == "dumps":
         return pickle.dumps(build(op[1], env), op[2] if len(op) > 2 else pickle.HIGHEST_PROTOCOL)
+    if f in ("eqcopy", "subcopy"):
+        # copy a value and relate the copy to its original inside one op, so that the identity
+        # relations between the two (shared tzinfo objects) are the same in every re-execution
+        a = build(op[1], env)
+        how = op[2]
+        if how == "copy":
+            b = copy.copy(a)
+        elif how == "deepcopy":
+            b = copy.deepcopy(a)
+        else:
+            b = pickle.loads(pickle.dumps(a, op[3] if len(op) > 3 else pickle.HIGHEST_PROTOCOL))
+        if f == "subcopy":
+            return b - a
+        try:
+            h = hash(a) == hash(b)
+        except TypeError:
+            h = None
+        return [b == a, a == b, h]
     if f == "eqpair":
         # (copy == original, original == copy, hash equal where hashable)
         a, b = build(op[1], env), build(op[2], env)
